@@ -42,7 +42,7 @@ def budget(tier):
 def gen_ops(H, n):
     ops = []
     for _ in range(n):
-        k = H.weighted([("create", 4), ("map", 2), ("mutate", 3), ("crossover", 2), ("search", 1)])
+        k = H.weighted([("create", 4), ("map", 2), ("mutate", 3), ("crossover", 2), ("search", 1), ("other_grammar", 1)])
         ops.append((k, H.draw(64), H.draw(64), H.draw(4)))
     return ops
 
@@ -82,6 +82,40 @@ def do_search(w, which, ctx):
     return res
 
 
+def do_other_grammar(w, variant, ctx):
+    """F13 (history): while this grammar is in use, ANOTHER grammar is built from the same classes (other depth-counting mode, a
+    subset of the productions, or the reachable sub-grammar) and programs are created from it; the first grammar must not notice"""
+    from geneticengine.grammar.grammar import extract_grammar
+    from geneticengine.representations.tree.initializations import MaxDepthDecider
+    from geneticengine.representations.tree.treebased import TreeBasedRepresentation
+    from ..seams import SimRandom
+    from ..world import OpResult
+
+    res = OpResult("other_grammar")
+    ctx.faults["carry_over"] += 1
+
+    def go():
+        considered = w.built.considered()
+        start = w.built.cls[w.spec["start"]]
+        if variant % 3 == 0:
+            g2 = extract_grammar(considered, start, True)
+        elif variant % 3 == 1:
+            g2 = extract_grammar(considered[: max(1, len(considered) - 1 - variant % 2)], start)
+        else:
+            g2 = w.grammar.usable_grammar()
+        rnd0 = SimRandom(ctx, "uniform", log=False)
+        rep2 = TreeBasedRepresentation(g2, MaxDepthDecider(rnd0, g2, g2.get_min_tree_depth() + 1))
+        rep2.create_genotype(rnd0)
+
+    w.install_flaky()
+    try:
+        w.guarded(res, go)
+    except Exception:
+        pass
+    ctx.log("op other_grammar", variant % 3, res.ok, res.error)
+    return res
+
+
 def execute(ctx, spec, config, ops, r_seed, fail_at, multi, base_depth_delta):
     w = SynthWorld(ctx, feat=FEAT, spec=spec, config=config, rchooser=Chooser("R2", r_seed))
     w.flaky_fail_at = fail_at
@@ -96,8 +130,13 @@ def execute(ctx, spec, config, ops, r_seed, fail_at, multi, base_depth_delta):
         snap0 = grammar_snapshot(w.grammar)
         r = w.construct(max_depth=(None if base_depth_delta is None else max(0, (w.lib_min_depth() or 1) + base_depth_delta)))
 
-        def compare(after):
+        def compare(after, weights_may_move=False):
             snap = grammar_snapshot(w.grammar)
+            if weights_may_move:
+                # extracting a grammar is the one operation the property allows to rewrite the (class-level) weights
+                for key in ("weights", "class_weights"):
+                    if key in snap:
+                        snap0[key] = snap[key]
             if snap != snap0:
                 keys = diff_keys(snap0, snap)
                 ctx.violate(f"C10/grammar-changed/{'+'.join(keys)}",
@@ -120,11 +159,13 @@ def execute(ctx, spec, config, ops, r_seed, fail_at, multi, base_depth_delta):
                 res = w.op_mutate(a % len(w.pool))
             elif k == "crossover":
                 res = w.op_crossover(a % len(w.pool), b % len(w.pool))
+            elif k == "other_grammar":
+                res = do_other_grammar(w, a, ctx)
             else:
                 res = do_search(w, c, ctx)
             if not res.ok:
                 out["failed_ops"] += 1
-            if not compare(f"{res.kind} ({'ok' if res.ok else res.error})"):
+            if not compare(f"{res.kind} ({'ok' if res.ok else res.error})", weights_may_move=(res.kind == "other_grammar")):
                 break
         out["flaky_calls"] = w.flaky_calls
         return out
